@@ -310,7 +310,7 @@ func (Concurrent) Run(c choice.Chooser, opt sim.Options) (res sim.Result) {
 	}
 	out := s.Run()
 	res.Steps = int(out.Steps)
-	res.Count("sched:policy:"+out.PolicyName, 1)
+	res.Count("fault:schedule-policy:"+out.PolicyName, 1)
 	res.Count("sched:steps", int(out.Steps))
 	res.LogHash = out.Signature()
 	for t := range plans {
